@@ -50,6 +50,12 @@ def c02(tier, seed, work):
                store_consts(Buckets={"bkt1"}, KeySetName="dirkey", Bodies={"x1"}, CfgName="single",
                             OpNames={"PutObject", "GetObject", "HeadObject", "DeleteObject", "DeleteMulti", "CopyObject", "ListObjects"}),
                ["singlemem", "singleos"], **st)
+    # uploads refused after their body was read, in buckets that are empty, hold a neighbour, or do not exist
+    tour_stage(rep, work, "refused-uploads", "MC_Store",
+               store_consts(KeySetName="nest2", Bodies={"x1"},
+                            OpNames={"CreateBucket", "DeleteBucket", "HeadBucket", "PutObject", "PutRefused", "GetObject",
+                                     "DeleteObject", "ListObjects"}),
+               ALL4, small=True, **st)
     # bucket names that are prefixes of each other (bkt1, bkt12): deleting one must leave the other alone
     tour_stage(rep, work, "prefix-named-buckets", "MC_Store",
                store_consts(Buckets={"bkt1", "bkt12"}, KeySetName="nest2", Bodies={"x1"},
@@ -808,7 +814,7 @@ def c10(tier, seed, work):
                             OpNames={"PutMeta", "PutMetaB", "GetObject", "HeadObject", "DeleteObject", "ListObjects"}),
                ["singlemem", "singleos"], small=True, **st)
     # the names the fs backends give their own scratch files (upload temp file, mtime probe) are legal keys
-    ops4 = {"CreateBucket", "PutObject", "GetObject", "DeleteObject", "ListObjects", "DeleteBucket"}
+    ops4 = {"CreateBucket", "PutObject", "PutRefused", "GetObject", "DeleteObject", "ListObjects", "DeleteBucket"}
     tour_stage(rep, work, "keys-scratch-file-names", "MC_Store",
                store_consts(Buckets={"bkt1"}, KeySetName="hostile4", Bodies={"x1", "x2"} if tier == "thorough" else {"x1"}, OpNames=ops4),
                ALL4, small=True, **st)
